@@ -167,6 +167,9 @@ HARNESS_FLAVOURS = {
     "O1": ["-O1", "-g", "-DHARNESS_ALLOCLOG"],
     "O3": ["-O3", "-DHARNESS_ALLOCLOG"],
     "asan": ["-O1", "-g", "-fsanitize=address,undefined", "-fno-sanitize-recover=all", "-DHARNESS_EXACT"],
+    # C12: the library compiled with -fopenmp as always, linked against harness/omp_standin.cpp instead of libgomp
+    "ompseq": ["-O1", "-g", "-DHARNESS_OMP_STANDIN"],
+    "tsan": ["-O1", "-g", "-fsanitize=thread", "-DHARNESS_OMP_STANDIN"],
 }
 
 
@@ -185,7 +188,9 @@ def build_harness(flavour="O1", extra_defs=()):
         try:
             objs = []
             procs = []
-            for s in srcs + [os.path.join(HARNESS, "gl_harness.cpp")]:
+            standin = "-DHARNESS_OMP_STANDIN" in flags
+            extra_srcs = [os.path.join(HARNESS, "omp_standin.cpp")] if standin else []
+            for s in srcs + [os.path.join(HARNESS, "gl_harness.cpp")] + extra_srcs:
                 o = os.path.join(tmp, os.path.basename(s) + ".o")
                 objs.append(o)
                 procs.append((s, subprocess.Popen(["g++"] + flags + ["-I" + SRC, "-I" + HARNESS, "-c", s, "-o", o],
@@ -198,7 +203,8 @@ def build_harness(flavour="O1", extra_defs=()):
             if errs:
                 return None, "harness compile failed:\n" + "\n".join(errs)
             wrap = ["-Wl,--wrap=malloc", "-Wl,--wrap=free"] if "-DHARNESS_ALLOCLOG" in flags else []
-            p = subprocess.run(["g++"] + flags + wrap + objs + ["-lgmp", "-lgmpxx", "-o", exe + ".tmp"],
+            lflags = [f for f in flags if not (standin and f == "-fopenmp")] + (["-lpthread"] if standin else [])
+            p = subprocess.run(["g++"] + lflags + wrap + objs + ["-lgmp", "-lgmpxx", "-o", exe + ".tmp"],
                                stdout=subprocess.PIPE, stderr=subprocess.STDOUT, timeout=600)
             if p.returncode != 0:
                 return None, "harness link failed:\n" + p.stdout.decode()[-3000:]
